@@ -21,6 +21,9 @@ H1  the REAL writer (SimpleProcessTensor.export, or a file-backed PT-TEMPO run: 
           performed; the exception unwinds through the real code's try/finally/except/with
           handlers (a close() in a finally does run and takes effect), then the process ends;
           re-opening must raise or warn unless the content is complete.
+      '_anyversion' cases: symbolic 3-way choice of the file's oqupy_version attribute (running
+          version / another version / attribute missing); the version warning is not a corruption
+          warning.  '_nocaps' cases: export() of a process tensor whose caps were never set.
 H2  symbolic mode in {read, write, overwrite} x file exists/missing x filename given/None:
     'write' never replaces an existing file; remove() only for temporary / overwrite objects,
     never in read mode; untouched files keep their content.
@@ -92,7 +95,7 @@ def close_quietly(obj):
             pass
 
 
-def run_writer(ws, writer, fn, crash_at, fault=None):
+def run_writer(ws, writer, fn, crash_at, fault=None, attr_map=None):
     """runs writer(fn) through an operation recorder.  -> (ops, outcome), outcome in
     'completed' | 'killed' | 'raised'.
     fault None : the writer is killed before operation crash_at (stand-in: the open handle is
@@ -108,11 +111,12 @@ def run_writer(ws, writer, fn, crash_at, fault=None):
         if pid == 0:
             code = 3
             try:
-                rec = h5stub.OpRecorder(h5py, crash_at, None if factory else h5stub.real_crash, fault=factory)
+                rec = h5stub.OpRecorder(h5py, crash_at, None if factory else h5stub.real_crash, fault=factory, attr_map=attr_map)
                 try:
                     with patched({"oqupy.process_tensor.h5py": rec}):
                         writer(fn)
-                    code = 0
+                    h5stub.flush_open(rec)      # normal return: a file the writer left open is released
+                    code = 0                    # by the HDF5 library at interpreter exit, not by OQuPy
                 except BaseException:  # noqa
                     if factory and rec.fired:
                         h5stub.flush_open(rec)
@@ -126,7 +130,7 @@ def run_writer(ws, writer, fn, crash_at, fault=None):
         if code not in (0, 17, 18):
             raise RuntimeError("writer child process failed (exit code %s)" % code)
         return None, {0: "completed", 17: "killed", 18: "raised"}[code]
-    rec = h5stub.OpRecorder(ptm.h5py, crash_at, None if (ws.real or factory) else h5stub.stub_crash, fault=factory)
+    rec = h5stub.OpRecorder(ptm.h5py, crash_at, None if (ws.real or factory) else h5stub.stub_crash, fault=factory, attr_map=attr_map)
     outcome = "completed"
     with patched({"oqupy.process_tensor.h5py": rec}):
         try:
@@ -139,8 +143,15 @@ def run_writer(ws, writer, fn, crash_at, fault=None):
             if not (factory and rec.fired):
                 raise
             outcome = "raised"
-    if factory and not ws.real:
-        h5stub.abandon_all()       # the process ends; nothing else happens to the file
+    if ws.real:
+        h5stub.flush_open(rec)
+        for f in rec.files:          # a file the writer returned without closing: released at the
+            try:                     # HDF5 level (as when the object is dropped), no OQuPy close()
+                f.close()
+            except Exception:  # noqa
+                pass
+    elif factory or outcome == "completed":
+        h5stub.abandon_all()       # the process ends / the objects are dropped; nothing else happens to the file
     return rec.ops, outcome
 
 
@@ -160,17 +171,31 @@ class H1(Case):
     real_env = {}
     max_paths = 400
 
-    def __init__(self, part, seq, N, kind, rank=4, K=None, exc="OSError"):
+    VERSIONS = ("written by the running version", "written by another version (oqupy_version differs)",
+                "written by a version that sets no oqupy_version attribute")
+
+    def __init__(self, part, seq, N, kind, rank=4, K=None, exc="OSError", version="same", caps=True):
         self.part, self.seq, self.N, self.kind, self.rank, self.K, self.exc = part, seq, N, kind, rank, K, exc
+        self.version, self.caps = version, caps
         self.id = "H1/%s/%s_N%d%s_%s" % (part, seq, N, "_r%d" % rank if seq == "export" else "_K%s" % K, kind)
         if part == "exception":
             self.id += "_" + exc
+        if version == "sym":
+            self.id += "_anyversion"       # symbolic 3-way choice of the file's oqupy_version attribute
+        if not caps:
+            self.id += "_nocaps"           # export() of a process tensor whose caps were never set
         self.bounds = {"sequence": seq, "N": N, "import_type": kind, "crash_points": "all in range of part '%s'" % part}
         self.timeout_s = 120
 
     # -- writers ---------------------------------------------------------------------
     def _export_writer(self, inp):
         pt, _, _ = build_pt(inp, "e", 2, self.N, 2 if self.N > 1 else 1, self.rank, True, dt=0.1)
+        if not self.caps:
+            full = pt
+            pt = ptm.SimpleProcessTensor(hilbert_space_dimension=2, dt=0.1, transform_in=full.transform_in,
+                                         transform_out=full.transform_out)
+            for k in range(self.N):
+                pt.set_mpo_tensor(k, full._mpo_tensors[k])
         pt.name = "exported"
         return pt, (lambda fn: pt.export(fn)), (lambda fn: pt.export(fn))
 
@@ -215,14 +240,23 @@ class H1(Case):
                 ref, full, again = self._export_writer(inp)
             else:
                 state, full, again = self._pt_tempo_writer(inp)
-            ops, outcome = run_writer(ws, full, ws.path("complete.hdf5"), None)
-            crashed = outcome != "completed"
+            amap, vwhat = None, self.VERSIONS[0]
+            if self.version == "sym":
+                ver = inp.int("version", 0, 2)
+                vc = int(ver)
+                amap = [None, {"oqupy_version": "0.0.0+another.version"}, {"oqupy_version": h5stub.DROP_ATTR}][vc]
+                vwhat = self.VERSIONS[vc]
+            self._amap, self._vwhat = amap, vwhat
+            ops, outcome = run_writer(ws, full, ws.path("complete.hdf5"), None, attr_map=amap)
             if self.seq != "export":
                 ref = state["mem"]
-            if crashed or not ops or ops[-1][0] != "close":
-                raise RuntimeError("dry run of the writer did not end with close(): %r" % (ops[-3:],))
+            if outcome != "completed" or not ops:
+                raise RuntimeError("dry run of the writer did not complete: %r" % (ops[-3:],))
+            # L = number of file operations of the writer that returned normally.  The writing
+            # phase ends with the flag reset / close(); a writer that returns without either is
+            # still "completed normally" at k = L (its file is released when the object is dropped)
             L = len(ops)
-            B = h5stub.reset_index(ops)
+            B = min(h5stub.reset_index(ops), L - 1)
             if self.part == "exception":
                 return concretise_frac(inp, self._run_exception(inp, ws, ops, ref, again))
             if self.part == "writing_flag":
@@ -231,7 +265,7 @@ class H1(Case):
                 k = inp.int("k", B + 1, L)
             kc = int(k)                       # symbolic: one path per feasible crash point
             fn = ws.path("crashed.hdf5")
-            ops2, outcome = run_writer(ws, again, fn, kc)
+            ops2, outcome = run_writer(ws, again, fn, kc, attr_map=amap)
             crashed = outcome == "killed"
             if crashed != (kc < L):
                 raise RuntimeError("crash run inconsistent with dry run (k=%d, L=%d, crashed=%s)" % (kc, L, crashed))
@@ -239,7 +273,7 @@ class H1(Case):
                 raise RuntimeError("operation sequence of the crash run differs from the dry run")
             res = read_back(fn, self.kind)
             try:
-                where = describe(ops, kc)
+                where = describe(ops, kc) + "; file " + vwhat
                 if self.part == "writing_flag":
                     detected = res["raised"] is not None or res["corrupt_warning"]
                     obs.append(Ob.holds("writer killed before the end of the writing phase: re-opening fails or warns 'may be corrupt'",
@@ -268,7 +302,7 @@ def _run_exception(self, inp, ws, ops, ref, again):
     k = inp.int("k", 1, L - 1)
     kc = int(k)
     fn = ws.path("died.hdf5")
-    ops2, outcome = run_writer(ws, again, fn, kc, fault=self.exc)
+    ops2, outcome = run_writer(ws, again, fn, kc, fault=self.exc, attr_map=self._amap)
     if ops2 is not None and ops2[:kc] != ops[:kc]:
         raise RuntimeError("operation sequence of the fault run differs from the dry run before the fault")
     res = read_back(fn, self.kind)
@@ -277,7 +311,7 @@ def _run_exception(self, inp, ws, ops, ref, again):
         detected = res["raised"] is not None or res["corrupt_warning"]
         opened = res["obj"] is not None
         after = None if ops2 is None else ops2[kc:]
-        info = "operation %d of %d %r raised %s; writer %s; file operations performed while unwinding: %r; import_process_tensor(..., %r) %s, warnings=%r" % (
+        info = "file " + self._vwhat + "; operation %d of %d %r raised %s; writer %s; file operations performed while unwinding: %r; import_process_tensor(..., %r) %s, warnings=%r" % (
             kc, L, ops[kc], self.exc, outcome, after, self.kind,
             "raised %r" % (res["raised"],) if not opened else "returned an object of length %s" % _len(res["obj"]), res["warnings"])
         obs.append(Ob.holds("writer died by an exception: re-opening fails, warns 'may be corrupt', or yields an object",
@@ -728,10 +762,20 @@ def cases(tier):
            H1("writing_flag", "pt_tempo", 2, "file", K=None),
            H1("clean", "export", 1, "simple", rank=4), H1("clean", "export", 2, "file", rank=3),
            H1("clean", "pt_tempo", 2, "simple", K=None), H1("clean", "pt_tempo", 2, "file", K=1)]
+    # files written by another / an attribute-less version (symbolic 3-way choice); export without caps
+    cs += [H1("writing_flag", "export", 1, "simple", rank=4, version="sym"), H1("writing_flag", "pt_tempo", 2, "file", K=1, version="sym"),
+           H1("clean", "export", 2, "simple", rank=3, version="sym"), H1("clean", "pt_tempo", 2, "file", K=None, version="sym"),
+           H1("exception", "export", 1, "file", rank=3, exc="OSError", version="sym"),
+           H1("clean", "export", 2, "file", rank=4, caps=False), H1("clean", "export", 1, "simple", rank=3, caps=False, version="sym"),
+           H1("writing_flag", "export", 2, "file", rank=3, caps=False), H1("exception", "export", 2, "simple", rank=4, caps=False, exc="KeyboardInterrupt")]
     cs += [H1("exception", "export", 2, "file", rank=3, exc="OSError"), H1("exception", "export", 1, "simple", rank=4, exc="KeyboardInterrupt"),
            H1("exception", "pt_tempo", 2, "file", K=None, exc="OSError")]
     cs += [H2(), H3(), H3b("init"), H3b("api"), H2b(), H3c()]
     if tier == "thorough":
+        cs += [H1("writing_flag", "export", 3, "file", rank=3, version="sym"), H1("writing_flag", "pt_tempo", 3, "simple", K=None, version="sym"),
+               H1("clean", "export", 3, "file", rank=4, version="sym"), H1("clean", "pt_tempo", 3, "simple", K=1, version="sym"),
+               H1("exception", "pt_tempo", 2, "simple", K=None, exc="OSError", version="sym"),
+               H1("clean", "export", 3, "simple", rank=3, caps=False), H1("writing_flag", "export", 1, "simple", rank=4, caps=False, version="sym")]
         cs += [H1("exception", "export", 3, "simple", rank=4, exc="MemoryError"), H1("exception", "export", 3, "file", rank=3, exc="KeyboardInterrupt"),
                H1("exception", "export", 2, "simple", rank=4, exc="OSError"),
                H1("exception", "pt_tempo", 3, "simple", K=1, exc="KeyboardInterrupt"), H1("exception", "pt_tempo", 2, "simple", K=1, exc="MemoryError")]
